@@ -593,10 +593,30 @@ def check_C17():
     model = run_tlc("MCExtractFS", "ExtractFS_guardTRUE.cfg", timeout=1800)
     tlc_must_pass(model, "ExtractFS.tla invariant Contained (extractor with the final-component guard)")
     noguard = run_tlc("MCExtractFS", "ExtractFS_guardFALSE.cfg", timeout=1800)   # design-level counterexample without the guard (documented)
-    emitcfg = "ExtractFS_emit.cfg" if tier() == "quick" else "ExtractFS_emit3.cfg"
-    em = run_tlc("MCExtractFS", emitcfg, timeout=2400)
+    em = run_tlc("MCExtractFS", "ExtractFS_emit.cfg", timeout=2400)
     tlc_must_pass(em, "ExtractFS.tla emitter")
     rc, rep = harness_run(vh, ["extract-replay", em["out"], "@REPORT", car], timeout=3400)
+
+    def absorb(r2, label):
+        rep["evaluations"] += r2["evaluations"]
+        rep["distinct_nontrivial"] += r2["distinct_nontrivial"]
+        rep["violations"] = (rep["violations"] or []) + (r2["violations"] or [])
+        rep["inconclusive"] = (rep.get("inconclusive") or []) + (r2.get("inconclusive") or [])
+        rep["model_drift"] = (rep.get("model_drift") or []) + (r2.get("model_drift") or [])
+        rep["counters"][label + "_archives"] = r2["counters"].get("archives", 0)
+
+    three = ""
+    if tier() == "thorough":
+        # three top-level entries over a reduced alphabet (4 file names, 2 link names x 5 targets): measured 350 k archives
+        m3 = run_tlc("MCExtractFS", "ExtractFS_guardTRUE3.cfg", timeout=3000, workers=16)
+        tlc_must_pass(m3, "ExtractFS.tla invariant Contained, three top-level entries")
+        em3 = run_tlc("MCExtractFS", "ExtractFS_emit3.cfg", timeout=3000, workers=16)
+        tlc_must_pass(em3, "ExtractFS.tla emitter (three entries)")
+        rc3, rep3 = harness_run(vh, ["extract-replay", em3["out"], "@REPORT", car], timeout=5000)
+        os.remove(em3["out"])
+        absorb(rep3, "three_entry")
+        rep["counters"]["three_entry_states"] = m3["distinct"]
+        three = "; thorough: also every archive of 3 top-level entries over {4 file names, 2 link names x 5 targets, directories with <= 1 child} (%d archives)" % rep3["counters"].get("archives", 0)
     # bare file roots (written to <out>/unknown without passing through resolvePath): focused configuration
     fmodel = run_tlc("MCExtractFS", "ExtractFS_froot_guardTRUE.cfg", timeout=1800)
     tlc_must_pass(fmodel, "ExtractFS.tla invariant Contained with file roots")
@@ -604,12 +624,7 @@ def check_C17():
     fem = run_tlc("MCExtractFS", "ExtractFS_froot_emit.cfg", timeout=2400)
     tlc_must_pass(fem, "ExtractFS.tla emitter (file roots)")
     rc2, rep2 = harness_run(vh, ["extract-replay", fem["out"], "@REPORT", car], timeout=3400)
-    rep["evaluations"] += rep2["evaluations"]
-    rep["distinct_nontrivial"] += rep2["distinct_nontrivial"]
-    rep["violations"] = (rep["violations"] or []) + (rep2["violations"] or [])
-    rep["inconclusive"] = (rep.get("inconclusive") or []) + (rep2.get("inconclusive") or [])
-    rep["model_drift"] = (rep.get("model_drift") or []) + (rep2.get("model_drift") or [])
-    rep["counters"]["file_root_archives"] = rep2["counters"].get("archives", 0)
+    absorb(rep2, "file_root")
     rep["counters"]["file_root_states"] = fmodel["distinct"]
     cov = merge_cov(model, em, rep, {
         "file_roots": "archives of <= 3 top-level items over {file root (extracted as <out>/unknown), file/symlink/directory named 'unknown' or 'a'} x output directory {empty, 'unknown' a symlink "
@@ -618,7 +633,7 @@ def check_C17():
         "rule": "every archive of <= %d top-level entries over {file, symlink, directory (with <= 1 child)} x names {a, b, ../a, a/b, ..} x 6 symlink targets (relative and absolute, to the sentinel file, the sentinel "
                 "directory, inside, dangling outside) x output directory {empty, holding a symlink to the sentinel file, a symlink to the sentinel directory, a directory}, each as one root with (possibly repeated) "
                 "names and as two roots; the built car binary extracts it inside a sandbox and a recursive snapshot (names, types, contents, link targets, mtimes) of everything outside the output directory "
-                "is compared before/after; the model's predicted tree inside the output directory is compared as an I-layer check" % (2 if tier() == "quick" else 3),
+                "is compared before/after; the model's predicted tree inside the output directory is compared as an I-layer check" % 2 + three,
         "exhaustive": True, "explanation": "TLC checks Contained on the complete bounded state graph of ExtractFS.tla; without the guard it yields the counterexample: %s" % noguard.get("violated")})
     finish("C17", "model_checking", cov, rep["violations"] or [], inconclusive=rep.get("inconclusive") or None, drift=rep.get("model_drift") or None,
            assumptions=["kernel path resolution is what the model says (the verdict itself is the real snapshot comparison)", "plain (unsharded) directories; HAMT-sharded directories are not generated"])
@@ -637,13 +652,13 @@ def check_C18():
     os.remove(em["out"])
     cov = {"evaluations": rep["evaluations"], "distinct_nontrivial": rep["distinct_nontrivial"],
            "rule": "TLC enumerates every tree of <= 2 top-level entries over {empty / small / identical-content / unicode-named / exactly-one-chunk / multi-chunk / repeated-chunk files, relative / absolute / "
-                   "dangling / non-clean symlinks, directories (one with a space in its name) with <= %d children} x --version {1,2} x --no-wrap x extraction from {file, stdin pipe} (%d cases); a seeded "
+                   "dangling / non-clean symlinks, a file whose bytes are the dag-pb block of an empty directory, directories (one with a space in its name) with <= %d children, a directory of 1300 long-named entries that "
+                   "`car create` packs as a HAMT-sharded directory (checked in the archive)} x --version {1,2} x --no-wrap x source path spelled {/abs, ., dir/.} x extraction from {file, stdin pipe} (%d cases); a seeded "
                    "%d permille sample is materialised as a real tree, packed by the built `car create`, `car root` is compared with the single header root (which must be among the blocks), and the archive "
                    "is extracted and compared entry by entry (names, content length+hash, link targets) with the source tree re-rooted as Tree.tla says" % (1 if tier() == "quick" else 2, em["distinct"], pm),
-           "samples": rep["samples"] or [{}], "model_cases": em["distinct"], "states": model["distinct"]}
+           "samples": rep["samples"] or [{}], "model_cases": em["distinct"], "states": model["distinct"], "counters": rep["counters"]}
     finish("C18", "exploration", cov, rep["violations"] or [], inconclusive=rep.get("inconclusive") or None,
-           assumptions=["chunking and HAMT sharding happen inside go-unixfsnode; the specification only makes sure the size classes are generated",
-                        "directories large enough to be sharded are not generated in this round"])
+           assumptions=["chunking and HAMT sharding happen inside go-unixfsnode; the specification only makes sure the size classes are generated and treats the sharded directory as one opaque entry"])
 
 
 def check_C19():
